@@ -2,7 +2,8 @@
 From Coq Require Import Strings.String.
 From Coq Require Import List Bool Arith.
 From LLIR Require Import Lib.Bytes Model.Writer Gen.Printers Model.GoEval.
-From LLIR Require Import Proofs.WriterProofs Proofs.ObserverProofs.
+From LLIR Require Gen.WriterTable.
+From LLIR Require Import Proofs.WriterProofs Proofs.ObserverProofs Proofs.GenTables.
 Import ListNotations.
 Local Open Scope list_scope.
 
@@ -50,6 +51,21 @@ Theorem C19_writeto_writes_only_chunks :
   map (fun p => list_sum (map loose_writes (p_body p)))
       (filter (fun p => String.eqb (p_method p) "WriteTo") observers) = [0].
 Proof. exact writeto_writes_only_chunks. Qed.
+
+(* ... and every statement of WriteTo is inside the translated fragment (a write past fw would be an
+   untranslated statement) *)
+Theorem C19_writeto_has_no_untranslated_statement :
+  map (fun p => list_sum (map unknowns (p_body p))) (filter (fun p => String.eqb (p_method p) "WriteTo") observers) = [0].
+Proof. exact writeto_has_no_untranslated_statement. Qed.
+(* regenerated tie for the writer itself: the three fmtWriter methods have, statement by statement, the shape the
+   model of Model/Writer.v describes (guard on the latched error, one write on the underlying writer, the count
+   and the error updated unconditionally), and WriteTo wraps the caller's writer first and returns the writer's
+   counters last *)
+Theorem C19_fmtwriter_is_the_model :
+  forallb writer_row_ok WriterTable.writer_rows = true /\
+  map WriterTable.w_method WriterTable.writer_rows = ["Fprint"; "Fprintf"; "Fprintln"]%string /\
+  WriterTable.writeto_first_stmt = "fw := &fmtWriter{w: w}"%string /\ WriterTable.writeto_last_stmt = "return fw.size, fw.err"%string.
+Proof. exact fmtwriter_is_the_model. Qed.
 
 (* non-vacuity: a writer failing inside the second chunk *)
 Example C19_example_mid_chunk_failure :
